@@ -44,6 +44,7 @@ type spec struct {
 	Sia      *siaSpec   `json:"sia,omitempty"`   // kind = sia
 	Rem      *remSpec   `json:"rem,omitempty"`   // kind = rem
 	Stat     *statSpec  `json:"stat,omitempty"`  // kind = stat
+	First    *firstSpec `json:"first,omitempty"` // kind = first
 }
 
 func (s spec) replayArg() string {
@@ -563,6 +564,7 @@ type tally struct {
 	burstRounds, burstCalls, burstAnomalies                                               int
 	heldSlices, remRounds, remAnomalies                                                   int
 	statRounds, statReads, statAnomalies                                                  int
+	firstBatches, firstTrials, firstAnomalies                                             int
 	siaRounds, siaAnomalies                                                               int
 }
 
@@ -656,6 +658,8 @@ func emitSpec(e *vh.Env, s spec, unresolved *int) {
 		stat.ops += len(steps)
 		stat.shardHist[fmt.Sprintf("shards=%d", s.N)]++
 		e.Emit(wideCase(s, steps))
+	case "first":
+		e.Emit(firstCase(*s.First))
 	case "stat":
 		n := s.Attempts
 		if n == 0 {
@@ -859,6 +863,24 @@ func main() {
 				emitSpec(e, spec{Kind: "stat", Stat: &b}, &unresolved)
 			}
 		}
+		// first touches of fresh wide caches: batches of trials
+		nFirst := e.Scale(6, 60)           // batches per (variant, route)
+		firstTrials := e.Scale(2500, 6000) // trials per batch
+		for _, v := range []string{"std", "tiny"} {
+			for _, xh := range []bool{false, true} {
+				route := "simple"
+				if xh {
+					route = "xhash"
+				}
+				for i, m := 0, boost("first/"+v+"/"+route, nFirst); i < m; i++ {
+					b := genFirst(e.Rnd, v, xh, firstTrials)
+					emitSpec(e, spec{Kind: "first", First: &b}, &unresolved)
+				}
+			}
+		}
+		e.Meta["first_touch_batches"] = stat.firstBatches
+		e.Meta["first_touch_trials"] = stat.firstTrials
+		e.Meta["first_touch_batches_with_anomaly_seen_by_harness_advisory"] = stat.firstAnomalies
 		e.Meta["stats_rounds"] = stat.statRounds
 		e.Meta["stats_answers_kept"] = stat.statReads
 		e.Meta["stats_rounds_with_anomaly_seen_by_harness_advisory"] = stat.statAnomalies
